@@ -19,6 +19,8 @@
 #include <time.h>
 #include <unistd.h>
 
+#include <algorithm>
+#include <deque>
 #include <set>
 
 #include "../fsmodel.h"
@@ -94,7 +96,8 @@ class CrashRunner {
   std::vector<DbConfig> cfg_at_op;      // configuration in effect during op i
   SchedConfig scfg;
   std::string dir, img;
-  std::vector<WriteRec> writes;
+  std::deque<WriteRec> writes;       // indexed by batch number; a deque keeps references stable while other threads append
+  int max_concurrent_writers = 1;
   std::vector<IoEvent> trace;
   std::vector<std::pair<size_t, size_t>> op_span;  // op index -> [begin_ev, end_ev]
   std::vector<std::string> op_name;
@@ -138,6 +141,41 @@ class CrashRunner {
     (void)op;
   }
 
+  int concurrent_blocks = 0;
+
+  // parses `put k v`, `del k`, `batch ...` (first = index of the operation name within op.args for thread lines)
+  bool parse_write(const Op &op, int thread_form, WriteRec *w) {
+    std::string n = thread_form ? (op.args.size() > 1 ? op.args[1] : "") : op.name;
+    size_t a0 = thread_form ? 2 : 0;
+    w->sync = op.geti("sync", 0) != 0;
+    if (n == "put") {
+      Update u; u.put = true;
+      if (op.args.size() >= a0 + 2 && expand_bytes(op.args[a0], u.key) && expand_bytes(op.args[a0 + 1], u.value)) w->ups.push_back(u);
+    } else if (n == "del") {
+      Update u; u.put = false;
+      if (op.args.size() >= a0 + 1 && expand_bytes(op.args[a0], u.key)) w->ups.push_back(u);
+    } else if (n == "batch") {
+      for (size_t i = a0; i < op.args.size(); i++) {
+        const std::string &a = op.args[i];
+        Update u;
+        if (a.compare(0, 2, "p:") == 0) {
+          size_t cpos = a.find(':', 2);
+          if (cpos == std::string::npos) continue;
+          u.put = true;
+          if (!expand_bytes(a.substr(2, cpos - 2), u.key) || !expand_bytes(a.substr(cpos + 1), u.value)) continue;
+          w->ups.push_back(u);
+        } else if (a.compare(0, 2, "d:") == 0) {
+          u.put = false;
+          if (!expand_bytes(a.substr(2), u.key)) continue;
+          w->ups.push_back(u);
+        }
+      }
+    } else return false;
+    // user keys starting with \0M would collide with markers
+    for (auto &u : w->ups) if (u.key.size() >= 2 && u.key[0] == 0 && u.key[1] == 'M') return false;
+    return !w->ups.empty() || n == "batch";
+  }
+
   void record(const Case &c) {
     for (auto &op : c.ops)
       if (op.name == "config") { cfg.apply(op); sched_cfg(op); break; }
@@ -170,36 +208,44 @@ class CrashRunner {
       op_span[i].first = io_trace().size();
       if (n == "put" || n == "del" || n == "batch") {
         WriteRec w;
-        w.idx = (int)writes.size();
-        w.sync = op.geti("sync", 0) != 0;
-        if (n == "put") {
-          Update u; u.put = true;
-          if (op.args.size() >= 2 && expand_bytes(op.args[0], u.key) && expand_bytes(op.args[1], u.value)) w.ups.push_back(u);
-        } else if (n == "del") {
-          Update u; u.put = false;
-          if (op.args.size() >= 1 && expand_bytes(op.args[0], u.key)) w.ups.push_back(u);
-        } else {
-          for (auto &a : op.args) {
-            Update u;
-            if (a.compare(0, 2, "p:") == 0) {
-              size_t cpos = a.find(':', 2);
-              if (cpos == std::string::npos) continue;
-              u.put = true;
-              if (!expand_bytes(a.substr(2, cpos - 2), u.key) || !expand_bytes(a.substr(cpos + 1), u.value)) continue;
-              w.ups.push_back(u);
-            } else if (a.compare(0, 2, "d:") == 0) {
-              u.put = false;
-              if (!expand_bytes(a.substr(2), u.key)) continue;
-              w.ups.push_back(u);
-            }
-          }
-        }
-        // user keys starting with \0M would collide with markers
-        bool clash = false;
-        for (auto &u : w.ups) if (u.key.size() >= 2 && u.key[0] == 0 && u.key[1] == 'M') clash = true;
-        if (clash) { rep->count("skipped_ops"); continue; }
-        add_markers_and_write(db, w, op, i);
+        if (!parse_write(op, 0, &w)) { rep->count("skipped_ops"); continue; }
         writes.push_back(w);
+        WriteRec &slot = writes.back();
+        slot.idx = (int)writes.size() - 1;
+        add_markers_and_write(db, slot, op, i);
+      } else if (n == "thread") {
+        // a block of consecutive `thread <t> put|del|batch ...` lines runs concurrently (group commit in the trace)
+        std::map<int, std::vector<Op>> prog;
+        int j = i;
+        for (; j < (int)c.ops.size() && c.ops[j].name == "thread"; j++) {
+          const Op &to = c.ops[j];
+          if (to.args.size() >= 2) prog[atoi(to.args[0].c_str())].push_back(to);
+          cfg_at_op[j] = cfg;
+          op_name[j] = "thread";
+          op_span[j].first = io_trace().size();
+        }
+        struct TA { CrashRunner *self; ldb_t *db; std::vector<Op> ops; int opidx; };
+        std::vector<TA> tas;
+        for (auto &pr : prog) tas.push_back(TA{this, db, pr.second, i});
+        if ((int)tas.size() > max_concurrent_writers) max_concurrent_writers = (int)tas.size();
+        std::vector<int> tids;
+        for (auto &ta : tas)
+          tids.push_back(sched_spawn([](void *p) {
+            TA *a = (TA *)p;
+            for (auto &to : a->ops) {
+              WriteRec w;
+              if (!a->self->parse_write(to, 1, &w)) continue;
+              a->self->writes.push_back(w);
+              WriteRec &slot = a->self->writes.back();
+              slot.idx = (int)a->self->writes.size() - 1;
+              a->self->add_markers_and_write(a->db, slot, to, a->opidx);
+            }
+          }, &ta));
+        for (int t : tids) sched_join(t);
+        for (int k = i; k < j; k++) op_span[k].second = io_trace().size();
+        i = j - 1;
+        concurrent_blocks++;
+        continue;
       } else if (n == "fill") {
         long lo = op.args.size() > 0 ? atol(op.args[0].c_str()) : 0;
         long hi = op.args.size() > 1 ? atol(op.args[1].c_str()) : lo + 10;
@@ -209,14 +255,15 @@ class CrashRunner {
         if (hi - lo > 2000) hi = lo + 2000;
         for (long k = lo; k < hi; k++) {
           WriteRec w;
-          w.idx = (int)writes.size();
           w.sync = every > 0 && (k % every) == 0;
           Update u; u.put = true;
           u.key = sfmt("k%05ld", k);
           expand_bytes(sfmt("%c%ld.%ld", (sd & 1) ? 'r' : 'c', sd * 100003 + k, nb), u.value);
           w.ups.push_back(u);
-          add_markers_and_write(db, w, op, i);
           writes.push_back(w);
+          WriteRec &slot = writes.back();
+          slot.idx = (int)writes.size() - 1;
+          add_markers_and_write(db, slot, op, i);
         }
       } else if (n == "flush") {
         io_mark(sfmt("BO %d flush", i));
@@ -284,6 +331,7 @@ class CrashRunner {
   std::map<int, std::vector<int>> segments;  // log inode -> write indices in log order
   std::map<int, size_t> log_unlink_ev;       // log inode -> trace index of its unlink
   std::map<int, std::string> inode_name;
+  std::map<int, int> log_rank;                // batch -> position in the global log order
 
   void analyse(FsModel &full) {
     for (size_t i = 0; i < full.inodes.size(); i++) {
@@ -309,10 +357,16 @@ class CrashRunner {
     }
     for (auto &w : writes)
       if (w.log_inode < 0) VF_FAIL("C03", "acknowledged batch %d is in no write-ahead log (reference decode of all log bytes)", w.idx);
-    // log order must equal issue order for a single client
-    for (auto &s : segments)
-      for (size_t i = 1; i < s.second.size(); i++)
-        if (s.second[i] < s.second[i - 1]) VF_FAIL("C03", "log %s holds batch %d after batch %d", inode_name[s.first].c_str(), s.second[i], s.second[i - 1]);
+    // log order must respect real time: a batch acknowledged before another was issued precedes it in the log
+    // (for a single client this is issue order); the global order of surviving batches is the log order
+    {
+      std::vector<std::pair<int, int>> order;  // (log inode, position) -> batch, logs in creation order
+      int rank = 0;
+      for (auto &sgm : segments) for (int idx : sgm.second) log_rank[idx] = rank++;
+      for (auto &a : writes) for (auto &b : writes)
+        if (a.ack_ev != (size_t)-1 && a.ack_ev < b.begin_ev && log_rank[a.idx] > log_rank[b.idx])
+          VF_FAIL("C03", "batch %d was acknowledged before batch %d was issued but follows it in the write-ahead logs", a.idx, b.idx);
+    }
     // unlink events of log files: map by name at the time of unlink
     FsModel m2;
     for (size_t ev = 0; ev < trace.size(); ev++) {
@@ -365,7 +419,9 @@ class CrashRunner {
 
   std::map<std::string, std::string> fold(const std::set<int> &T) {
     std::map<std::string, std::string> m;
-    for (int i : T)
+    std::vector<int> order(T.begin(), T.end());
+    std::sort(order.begin(), order.end(), [&](int a, int b) { return log_rank[a] < log_rank[b]; });
+    for (int i : order)
       for (auto &u : writes[i].ups) {
         if (u.put) m[u.key] = u.value; else m.erase(u.key);
       }
@@ -548,7 +604,7 @@ class CrashRunner {
       // process kill: at most the in-flight write beyond the acknowledged ones
       int extra = 0;
       for (int i : r.T) if (!required.count(i)) extra++;
-      if (extra > 1) { sched_call_begin(); ldb_close(db); sched_call_end(); sched_end(); VF_FAIL("C03", "%s: %d unacknowledged batches present after a process crash (at most one can be in flight)", what.c_str(), extra); }
+      if (extra > max_concurrent_writers) { sched_call_begin(); ldb_close(db); sched_call_end(); sched_end(); VF_FAIL("C03", "%s: %d unacknowledged batches present after a process crash (more than the writers that can be in flight)", what.c_str(), extra); }
     }
     // prefix of every log segment
     for (auto &s : segments) {
@@ -809,6 +865,7 @@ class CrashRunner {
       }
       rep->count("histories");
       rep->count("writes", (long long)writes.size());
+      if (concurrent_blocks) { rep->count("class.histories_with_concurrent_writers"); rep->count("concurrent_writer_blocks", concurrent_blocks); }
     } catch (const Violation &v) {
       ok = false;
       *prop = v.prop;
